@@ -317,6 +317,76 @@ func RunCalls(b *abs.Built, dir string, c CallsCase, rec *rectxn.Recorder) error
 	return rec.Emit(map[string]interface{}{"ev": "calls", "first": c.First, "then": then, "reconnect": c.Reconnect, "results": results, "stuck": stuck, "dump": dump})
 }
 
+// StressSchema: rows whose every field carries the same version number,
+// including fields that are references in Go (map, slice, pointer): a
+// reader handed the cache's own memory shows up as a race or a mixed row.
+func StressSchema() *abs.Schema {
+	atom := func(t string) abs.Col { return abs.Col{Key: abs.BaseT{T: t}, Min: 1, Max: 1, Mut: true} }
+	tbl := func() abs.Table {
+		return abs.Table{IsRoot: true, Indexes: [][]string{{"name"}}, Cols: map[string]abs.Col{"name": atom("string"), "v": atom("integer"),
+			"ext":  {Key: abs.BaseT{T: "string"}, Val: abs.BaseT{T: "string"}, Min: 0, Max: -1, Mut: true},
+			"tags": {Key: abs.BaseT{T: "string"}, Min: 0, Max: -1, Mut: true},
+			"opt":  {Key: abs.BaseT{T: "string"}, Min: 0, Max: 1, Mut: true}}}
+	}
+	return &abs.Schema{Name: "sdb", Tables: map[string]abs.Table{"T1": tbl(), "T2": tbl(), "T3": tbl()}}
+}
+
+func versionRow(v int) map[string]interface{} {
+	name := fmt.Sprintf("v%d", v)
+	return map[string]interface{}{"name": name, "v": v, "ext": []interface{}{[]interface{}{"k", "x"}, []interface{}{"v", name}},
+		"tags": []interface{}{"t", name}, "opt": []interface{}{name}}
+}
+
+// oneVersion: do all fields of the row carry the version of its v column?
+func oneVersion(row map[string]interface{}) bool {
+	name := fmt.Sprintf("v%v", row["v"])
+	if row["name"] != name {
+		return false
+	}
+	ext, _ := row["ext"].([]interface{})
+	okExt := false
+	for _, p := range ext {
+		if kv, ok := p.([]interface{}); ok && len(kv) == 2 && kv[0] == "v" && kv[1] == name {
+			okExt = true
+		}
+	}
+	tags, _ := row["tags"].([]interface{})
+	okTag := false
+	for _, t := range tags {
+		if t == name {
+			okTag = true
+		}
+	}
+	opt, _ := row["opt"].([]interface{})
+	return okExt && okTag && len(tags) == 2 && len(ext) == 2 && len(opt) == 1 && opt[0] == name
+}
+
+// scribble writes into everything the model refers to: harmless when the model is the caller's own copy
+func scribble(m model.Model) {
+	rv := reflect.ValueOf(m)
+	if rv.Kind() != reflect.Ptr || rv.IsNil() {
+		return
+	}
+	rv = rv.Elem()
+	for i := 0; i < rv.NumField(); i++ {
+		f := rv.Field(i)
+		switch f.Kind() {
+		case reflect.Map:
+			if !f.IsNil() && f.Type().Key().Kind() == reflect.String && f.Type().Elem().Kind() == reflect.String {
+				f.SetMapIndex(reflect.ValueOf("v"), reflect.ValueOf("scribbled"))
+			}
+		case reflect.Slice:
+			if f.Len() > 0 && f.Type().Elem().Kind() == reflect.String {
+				f.Index(0).SetString("scribbled")
+			}
+		case reflect.Ptr:
+			if !f.IsNil() && f.Elem().Kind() == reflect.String {
+				f.Elem().SetString("scribbled")
+			}
+		}
+	}
+}
+
 // RunStress: readers on the cache while notifications, monitor set-up,
 // disconnects and reconnects go on. Every row carries one version number in
 // all its fields; a reader that sees a row mixing two versions counts it.
@@ -325,14 +395,24 @@ func RunStress(b *abs.Built, dir string, seed int64, dur time.Duration, rec *rec
 	if err != nil {
 		return err
 	}
-	defer in.Close()
 	l := logr.Discard()
 	cl, err := client.NewOVSDBClient(in.Ctx.ClientDB, client.WithEndpoint("unix:"+in.Sock), client.WithLogger(&l),
 		client.WithReconnect(2*time.Second, backoff.NewConstantBackOff(2*time.Millisecond)))
 	if err != nil {
 		return err
 	}
-	defer cl.Close()
+	defer func() {
+		done := make(chan struct{})
+		go func() {
+			cl.Close()
+			in.Close()
+			close(done)
+		}()
+		select {
+		case <-done:
+		case <-time.After(3 * time.Second):
+		}
+	}()
 	cctx, cancel := context.WithTimeout(context.Background(), 10*time.Second)
 	if err := cl.Connect(cctx); err != nil {
 		cancel()
@@ -341,11 +421,12 @@ func RunStress(b *abs.Built, dir string, seed int64, dur time.Duration, rec *rec
 	cancel()
 	cli := &Client{ID: 1, C: cl, Monitored: map[string][]string{}, Ctx: in.Ctx}
 	for _, t := range []string{"T1", "T2"} {
-		if _, err := cli.Monitor("monitor_cond", map[string][]string{t: {"name", "v"}}); err != nil {
+		if _, err := cli.Monitor("monitor_cond", map[string][]string{t: {"name", "v", "ext", "tags", "opt"}}); err != nil {
 			return err
 		}
 	}
 	var mixed, reads, calls, stuckCalls, monitorsAdded, churn int64
+	var lastName atomic.Value
 	stop := make(chan struct{})
 	var wg sync.WaitGroup
 	// writer: every row's fields carry the same version
@@ -371,11 +452,11 @@ func RunStress(b *abs.Built, dir string, seed int64, dur time.Duration, rec *rec
 			}
 			var o abs.AOp
 			if !has {
-				o = abs.AOp{Op: "insert", Table: t, UUID: u, Row: map[string]interface{}{"name": fmt.Sprintf("v%d", v), "v": v}}
+				o = abs.AOp{Op: "insert", Table: t, UUID: u, Row: versionRow(v)}
 			} else if v%7 == 0 {
 				o = abs.AOp{Op: "delete", Table: t, Where: [][]interface{}{{"_uuid", "==", u, "atom"}}}
 			} else {
-				o = abs.AOp{Op: "update", Table: t, Where: [][]interface{}{{"_uuid", "==", u, "atom"}}, Row: map[string]interface{}{"name": fmt.Sprintf("v%d", v), "v": v}}
+				o = abs.AOp{Op: "update", Table: t, Where: [][]interface{}{{"_uuid", "==", u, "atom"}}, Row: versionRow(v)}
 			}
 			o.Normalize()
 			op, err := in.Ctx.ToOp(o)
@@ -404,6 +485,7 @@ func RunStress(b *abs.Built, dir string, seed int64, dur time.Duration, rec *rec
 					if rc == nil {
 						continue
 					}
+					var own bool
 					check := func(m model.Model) {
 						if m == nil || reflect.ValueOf(m).IsNil() {
 							return
@@ -413,18 +495,52 @@ func RunStress(b *abs.Built, dir string, seed int64, dur time.Duration, rec *rec
 							return
 						}
 						atomic.AddInt64(&reads, 1)
-						if row["name"] != fmt.Sprintf("v%d", row["v"]) {
+						if !oneVersion(row) {
 							atomic.AddInt64(&mixed, 1)
 						}
+						lastName.Store(row["name"])
+						if own {
+							scribble(m)
+						}
 					}
-					switch (r + n) % 4 {
+					own = true
+					switch (r + n) % 5 {
+					case 4:
+						// looked up through the name index, not by uuid
+						if name, ok := lastName.Load().(string); ok {
+							probe, err := in.Ctx.AbsToModel(t, "", map[string]interface{}{"name": name})
+							if err != nil {
+								break
+							}
+							ms, _ := rc.RowsByModels([]model.Model{probe})
+							for _, m := range ms {
+								check(m)
+							}
+							_, m, _ := rc.RowByModel(probe)
+							check(m)
+							lst := reflect.New(reflect.SliceOf(reflect.TypeOf(probe)))
+							ctx, cancel := context.WithTimeout(context.Background(), 200*time.Millisecond)
+							if cl.Where(probe).List(ctx, lst.Interface()) == nil {
+								for i := 0; i < lst.Elem().Len(); i++ {
+									if pm, ok := lst.Elem().Index(i).Interface().(model.Model); ok {
+										check(pm)
+									}
+								}
+							}
+							cancel()
+						}
 					case 0:
 						for _, m := range rc.Rows() {
 							check(m)
 						}
 					case 1:
-						for u, m := range rc.RowsShallow() {
+						own = false // RowsShallow hands out the cache's own rows, by contract read-only
+						shallow := rc.RowsShallow()
+						for _, m := range shallow {
 							check(m)
+						}
+						own = true
+						for u := range shallow {
 							if rc.HasRow(u) {
 								check(rc.Row(u))
 							}
@@ -472,8 +588,11 @@ func RunStress(b *abs.Built, dir string, seed int64, dur time.Duration, rec *rec
 									_, row, err := in.Ctx.ModelToAbs("T1", lst.Elem().Index(i).Interface())
 									if err == nil {
 										atomic.AddInt64(&reads, 1)
-										if row["name"] != fmt.Sprintf("v%d", row["v"]) {
+										if !oneVersion(row) {
 											atomic.AddInt64(&mixed, 1)
+										}
+										if pm, ok := lst.Elem().Index(i).Interface().(model.Model); ok {
+											scribble(pm)
 										}
 									}
 								}
@@ -487,9 +606,10 @@ func RunStress(b *abs.Built, dir string, seed int64, dur time.Duration, rec *rec
 								_, row, err := in.Ctx.ModelToAbs("T2", m)
 								if err == nil {
 									atomic.AddInt64(&reads, 1)
-									if row["name"] != fmt.Sprintf("v%d", row["v"]) {
+									if !oneVersion(row) {
 										atomic.AddInt64(&mixed, 1)
 									}
+									scribble(m)
 								}
 							}
 						}
@@ -537,11 +657,24 @@ func RunStress(b *abs.Built, dir string, seed int64, dur time.Duration, rec *rec
 	end := time.Now().Add(dur)
 	for time.Now().Before(end) {
 		time.Sleep(15 * time.Millisecond)
-		cl.Disconnect()
+		r := runCall("Disconnect", func(context.Context) error { cl.Disconnect(); return nil })
+		if !r.Returned {
+			atomic.AddInt64(&stuckCalls, 1)
+			break
+		}
 		churn++
 	}
 	close(stop)
-	wg.Wait()
+	finished := make(chan struct{})
+	go func() { wg.Wait(); close(finished) }()
+	dump := ""
+	select {
+	case <-finished:
+	case <-time.After(2*callDeadline + 5*time.Second):
+		// some goroutine of the run is blocked inside the client for good
+		atomic.AddInt64(&stuckCalls, 1)
+		dump = goroutineDump()
+	}
 	return rec.Emit(map[string]interface{}{"ev": "stress", "reads": reads, "mixed": mixed, "calls": calls, "stuck": stuckCalls,
-		"disconnects": churn, "monitors_added": monitorsAdded, "races": 0, "report": ""})
+		"disconnects": churn, "monitors_added": monitorsAdded, "races": 0, "report": "", "dump": dump})
 }
